@@ -342,6 +342,50 @@ pub fn dup_path_case(seed: u64, idx: u64) -> Case {
     }
 }
 
+/// Entries whose paths are different strings for the same file (`a/t.png`, `a//t.png`, `a/./t.png`) and
+/// crop different regions of it, so they carry different textures.  An ANM source supplies each entry
+/// with the texture stored under *its* path string, whatever order the script lists them in: compiling
+/// the reordered script with the ANM as source must equal compiling it with the directory as source.
+pub fn path_spelling_case(seed: u64, idx: u64) -> Case {
+    let mut rng = Rng::new(rng::mix(seed, "c17-spell", idx));
+    let (pw, ph) = (rng.range(6, 24) as u32, rng.range(6, 24) as u32);
+    let png = encode_png(pw, ph, &gen_pixels(pw, ph, &mut rng));
+    let game = *rng.pick(&["th12", "th10", "th16"]);
+    let spellings = ["sub/tex.png", "sub//tex.png", "sub/./tex.png", "./sub/tex.png"];
+    let n = rng.range(2, 4) as usize;
+    let mut entries: Vec<String> = vec![];
+    for k in 0..n {
+        let ox = rng.below(pw as u64 - 1) as u32;
+        let oy = rng.below(ph as u64 - 1) as u32;
+        let format = *rng.pick(&[1u32, 3, 5, 7]);
+        entries.push(format!(
+            "entry {{\n    path: \"{}\",\n    has_data: true,\n    img_format: {},\n    img_width: {},\n    img_height: {},\n    offset_x: {},\n    offset_y: {},\n    colorkey: 0,\n    memory_priority: 0,\n    low_res_scale: false,\n    sprites: {{sprite{}: {{id: {}, x: 0.0, y: 0.0, w: 1.0, h: 1.0}}}},\n}}\n\nscript script{} {{\n    ins_1();\n}}\n\n",
+            spellings[k], format, pw - ox, ph - oy, ox, oy, k, k, k
+        ));
+    }
+    let head = "#pragma mapfile \"map/any.anmm\"\n\n";
+    let forward = format!("{}{}", head, entries.concat());
+    let mut order: Vec<usize> = (0..n).collect();
+    rng.shuffle(&mut order);
+    if order.iter().enumerate().all(|(i, &o)| i == o) {
+        order.reverse();
+    }
+    let keep = if rng.chance(1, 3) { n - 1 } else { n };
+    let reordered = format!("{}{}", head, order.iter().rev().take(keep).map(|&k| entries[k].clone()).collect::<String>());
+    Case {
+        property: "C17".into(),
+        oracle: "multisource".into(),
+        name: format!("path-spellings#{} {} entries={} order={:?} keep={} png={}x{}", idx, game, n, order, keep, pw, ph),
+        inputs: vec![Input::tree("map/"), Input::text("gen.spec", &forward), Input::text("reordered.spec", &reordered), Input::bytes("gen/sub/tex.png", png)],
+        steps: vec![
+            Step::new(vec![s("truanm"), s("compile"), s("-g"), s(game), s("gen.spec"), s("-i"), s("gen"), s("-o"), s("orig.anm")]),
+            Step::new(vec![s("truanm"), s("compile"), s("-g"), s(game), s("reordered.spec"), s("-i"), s("orig.anm"), s("-o"), s("multi.anm")]),
+            Step::new(vec![s("truanm"), s("compile"), s("-g"), s(game), s("reordered.spec"), s("-i"), s("gen"), s("-o"), s("model.anm")]),
+        ],
+        meta: json!({"first": 1}),
+    }
+}
+
 pub fn big_texture_case(seed: u64) -> Case {
     let mut rng = Rng::new(rng::mix(seed, "c17-big", 0));
     let png = encode_png(64, 64, &gen_pixels(64, 64, &mut rng));
@@ -526,6 +570,9 @@ pub fn run(ctx: &Ctx) -> CheckResult {
             ],
             meta: json!({"compile_step": 1}),
         });
+    }
+    for i in 0..(if quick { 25 } else { 400 }) {
+        cases.push(path_spelling_case(ctx.seed, i));
     }
     // (c) source orderings
     cases.extend(multisource_cases(ctx.seed, if quick { 150 } else { 2500 }));
